@@ -3,7 +3,7 @@ use simple_logger::SimpleLogger;
 use std::fs;
 use std::io::ErrorKind;
 use std::ops::{Deref, DerefMut};
-use std::sync::{Arc, Condvar, Mutex};
+use std::sync::Arc;
 use structopt::StructOpt;
 use tokio::task;
 use tonic::transport::{Certificate, Server, ServerTlsConfig};
@@ -30,6 +30,7 @@ use teos::protos::private_tower_services_server::PrivateTowerServicesServer;
 use teos::protos::public_tower_services_server::PublicTowerServicesServer;
 use teos::responder::Responder;
 use teos::tls::tls_init;
+use teos::vsync::{Condvar, Mutex};
 use teos::watcher::Watcher;
 
 use teos_common::constants::IRREVOCABLY_RESOLVED;
